@@ -4,6 +4,8 @@ import (
 	"fmt"
 	"os"
 	"strconv"
+
+	"verif/corpus"
 )
 
 // C12: the generator never crashes (front end; Go-package dimension outside).
@@ -56,8 +58,48 @@ func C12(c *Ctx) int {
 		c.HandleRepoCex(o, r, nil)
 	}
 	c.ValidateSamples(o, nil, 6)
+	c.crashByProduct(o)
 	o.Assumptions = []string{"the real ParseLox (parser.Parse with the augmented lexer and every on_* action, ast.Analyze with its four passes, ModeBuilder.Build, NFAToDFA, ConstructLALR) is executed from its SSA on in-memory files (os.ReadFile / filepath.Glob are served from a virtual file system)",
 		"holes are arbitrary bytes; everything outside the holes is the fixed template"}
 	o.Outside = []string{"Go packages that are missing, empty or ill-typed, template rendering, go/format and partial output on disk (behind go list, reflection and I/O: not encodable)", "templates and hole positions not in the catalogue"}
 	return c.Finish(o)
+}
+
+// crashByProduct runs the real lox binary on every corpus item of every
+// family and reports generator crashes (panic, hang, exit 0 without output).
+// Concrete by-product of the corpus driver, not decided by the solver.
+func (c *Ctx) crashByProduct(o *Outcome) {
+	var gs []*corpus.Grammar
+	gs = append(gs, corpus.ParserLanguageAll(false)...)
+	gs = append(gs, corpus.ParserPrecedence()...)
+	gs = append(gs, corpus.ParserRecovery()...)
+	var ls []*corpus.LexSpec
+	ls = append(ls, corpus.LexGreedy()...)
+	ls = append(ls, corpus.LexModes()...)
+	ls = append(ls, corpus.LexNonGreedy()...)
+	ls = append(ls, corpus.LexNonGreedyOverlap()...)
+	ls = append(ls, corpus.LexAccount()...)
+	ls = append(ls, corpus.LexExotic()...)
+	ls = append(ls, corpus.LexNumbering()...)
+	ls = append(ls, corpus.MustLexSpec("X-allaccept", "A = 'a'*"))
+	ls = append(ls, corpus.MustLexSpec("X-stringmode", "Q = '\"' @push_mode(Str)\n@mode Str {\nSE = '\"' @pop_mode\nTX = ~[\"]*\n}"))
+	ls = append(ls, corpus.MustLexSpec("X-onechar", "A = ."))
+	items, err := c.Generate(gs, ls, corpus.RejectedLayouts()...)
+	if err != nil {
+		o.Broken = append(o.Broken, "crash by-product: "+err.Error())
+		return
+	}
+	crashed := []string{}
+	for _, it := range items {
+		if it.Crashed {
+			crashed = append(crashed, it.Name)
+			o.Violations = append(o.Violations, fmt.Sprintf("VIOLATION property=C12 replay=%s", c.SaveReplay("generator-crash-"+it.Name,
+				map[string]any{"item": it.Name, "what": "lox crashed, hung or exited 0 without writing all files (concrete by-product of the corpus driver, not solver-decided)", "output": firstN(it.Stderr, 2000)})))
+		}
+	}
+	if o.Extra == nil {
+		o.Extra = map[string]any{}
+	}
+	o.Extra["corpus_items_run_through_lox_not_solver_decided"] = len(items)
+	o.Extra["corpus_items_crashing_lox"] = crashed
 }
